@@ -104,7 +104,10 @@ reg("C01",
     "dens_tropical (= (prod omega_k) x^(nu-1)/(U_tr^(D/2) V_tr^dod) when omega_k - omega_(k+1) = nu_k - D/2 dL_k - dod dS_k, the table's "
     "definition of the generalised dod, U_tr/V_tr the products C07.permLoop_trop identifies) and sector_density_times_prob (times the "
     "sector probability (prod 1/omega_k)/J the omegas cancel: x^(nu-1)/(U_tr^(D/2) V_tr^dod)/I_tr in EVERY sector - Borinsky's sector density as "
-    "a theorem); that U_tr, V_tr are the MAXIMAL monomials remains cited (C07). C13.components_iid: all D L Gaussian numbers iid N(0,1). Tie to the code: end-to-end correspondence "
+    "a theorem), sector_expectation / tropical_sampling (for ANY test functions: the expectation over all E! removal orders and the uniform numbers = the sum over the "
+    "sectors of the integrals against that one density); C01Table.lean: consistent_along + tropical_sampling_table - the same on the MODEL'S OWN TABLE (omega, loop "
+    "numbers, spanning flags = preEntry, i.e. what generate_from_tropical stores), under one remaining graph fact (a removal lowers the loop number by 0 or 1: hypothesis, checked on the implementation's flags for every subset in C03; "
+    "that it never gains spanning is proved: C03Mono.spanT_mono); that U_tr, V_tr are the MAXIMAL monomials remains cited (C07). C13.components_iid: all D L Gaussian numbers iid N(0,1). Tie to the code: end-to-end correspondence "
     "of sample on multi-loop/massive/non-trivial routings; supporting fixed-seed Monte Carlo against closed forms (tadpole, bubble, "
     "two-tadpole product under two routings; mean of jacobian*g = (pi/alpha)^(DL/2) for triangle, sunrise k1+-k2, double triangle, banana).",
     "Schwinger parametrisation and the maximal-monomial property cited; the 'Consistent' premise of the sector density (a removal lowers the loop number by 0/1, never gains spanning) is checked on the real table flags in C03; Monte Carlo is a statistical supporting test (6 sigma + 0.5%), not a proof.",
